@@ -112,7 +112,7 @@ theorem st_withLoop_bind {β} {body : CM Unit} {f : Loop → CM β} {s0 s : CSta
   generalize hs1 : ({ s with loops := { lastTryCatchIndex := s.tryCatchIndex } :: s.loops } : CState) = s1
   have hi1 : Inv s1 := by
     subst hs1
-    refine ⟨hst.inv.ne, hst.inv.tabs, hst.inv.walk, ?_⟩
+    refine ⟨hst.inv.ne, hst.inv.tabs, hst.inv.walk, ?_, hst.inv.consts⟩
     intro l hl p hp
     simp at hl
     rcases hl with hl | hl
@@ -142,7 +142,7 @@ theorem st_withLoop_bind {β} {body : CM Unit} {f : Loop → CM β} {s0 s : CSta
   apply h
   have hsz : s.insts.size ≤ s2.insts.size := by rw [← hin1]; exact hr2.pre.1
   have hpre : Pre s.insts s2.insts := by rw [← hin1]; exact hr2.pre
-  refine ⟨⟨hi2.ne, hi2.tabs, hi2.walk, ?_⟩, ?_, ?_⟩
+  refine ⟨⟨hi2.ne, hi2.tabs, hi2.walk, ?_, hi2.consts⟩, ?_, ?_⟩
   · intro l hl p hp
     exact hi2.loops l (by rw [hl2]; simp [hl]) p hp
   · refine ⟨by rw [← hst.rel.tlen, ← ht1]; exact hr2.tlen, hst.rel.pre.trans hpre, hst.rel.llen, hst.rel.ltail, ?_⟩
@@ -178,7 +178,7 @@ macro_rules | `(tactic| good_leaf) => `(tactic| first
   | with_reducible exact GoodP.cerr | with_reducible exact GoodP.throw_err
   | with_reducible exact GoodP.throw_bare | with_reducible exact GoodP.cunsupported
   | ((with_reducible refine good_emit_ ?_); opc) | ((with_reducible refine good_emit ?_); opc)
-  | with_reducible exact good_addConstant _ | with_reducible exact good_addFnConstant _
+  | with_reducible exact good_addConstant _
   | with_reducible exact good_get | with_reducible exact good_curPos
   | with_reducible exact good_currentLoop | with_reducible exact good_headTable
   | with_reducible exact (goodP_resolve _).good
@@ -455,13 +455,13 @@ theorem sat_modLoop_add {f : Loop → Loop} {p : Nat} {s0 s : CState} {ps : List
   cases hl : s.loops with
   | nil =>
     simp only
-    refine ⟨⟨hst.inv.ne, hst.inv.tabs, hst.inv.walk, fun l h => by simp at h⟩,
+    refine ⟨⟨hst.inv.ne, hst.inv.tabs, hst.inv.walk, fun l h => by simp at h, hst.inv.consts⟩,
       ⟨hst.rel.tlen, hst.rel.pre, ?_, ?_, fun l0 l' _ h' => by simp at h'⟩, trivial⟩
     · have := hst.rel.llen; rw [hl] at this; simpa using this
     · have := hst.rel.ltail; rw [hl] at this; simpa using this
   | cons l r =>
     simp only [hl]
-    refine ⟨⟨hst.inv.ne, hst.inv.tabs, hst.inv.walk, ?_⟩, ⟨hst.rel.tlen, hst.rel.pre, ?_, ?_, ?_⟩, trivial⟩
+    refine ⟨⟨hst.inv.ne, hst.inv.tabs, hst.inv.walk, ?_, hst.inv.consts⟩, ⟨hst.rel.tlen, hst.rel.pre, ?_, ?_, ?_⟩, trivial⟩
     · intro l' hl' q hq
       simp at hl'
       rcases hl' with hl' | hl'
@@ -526,8 +526,25 @@ theorem good_finishFn : Good finishFn := by
   | none => rw [hsc] at this; simp at this
   | some r => exact good_finishTail r.1 r.2 s hs
 
-theorem good_withFn (pos : Pos) (variadic : Bool) (params : List String) {body : CM Unit} (hb : Good body) :
-    Good (withFn pos variadic params body) := by
+theorem goodP_finishTail (lastOp : Nat) (pend : List Nat) :
+    GoodP (fun fn => Walk fn.insts 0 fn.insts.size) (finishTail lastOp pend) := by
+  unfold finishTail
+  refine GoodP.bind (P := fun _ => True) (by good) fun _ _ => ?_
+  refine GoodP.bind goodP_get_inv fun st hst => ?_
+  exact GoodP.bind good_headTable fun t _ => GoodP.pure hst.walk
+
+theorem goodP_finishFn : GoodP (fun fn => Walk fn.insts 0 fn.insts.size) finishFn := by
+  intro s hs
+  unfold finishFn
+  apply Sat.bind
+  apply Sat.get
+  have := scanFn_some (s.insts.size + 1) 0 0 [] hs.walk
+  cases hsc : scanFn s.insts (s.insts.size + 1) 0 0 [] with
+  | none => rw [hsc] at this; simp at this
+  | some r => exact goodP_finishTail r.1 r.2 s hs
+
+theorem goodP_withFn (pos : Pos) (variadic : Bool) (params : List String) {body : CM Unit} (hb : Good body) :
+    GoodP (fun r => Walk r.1.insts 0 r.1.insts.size) (withFn pos variadic params body) := by
   intro s hs
   obtain ⟨t, r, htr⟩ : ∃ t r, s.tables = t :: r := by
     cases h : s.tables with
@@ -555,14 +572,14 @@ theorem good_withFn (pos : Pos) (variadic : Bool) (params : List String) {body :
   generalize hs3 : ({ s2 with insts := #[], sourceMap := [], loops := [], tryCatchIndex := -1, iotaVal := -1, variadic := variadic } : CState) = s3
   have hi3 : Inv s3 := by
     subst hs3
-    exact ⟨hi2.ne, hi2.tabs, Walk.refl 0, fun l hl => by simp at hl⟩
+    exact ⟨hi2.ne, hi2.tabs, Walk.refl 0, fun l hl => by simp at hl, hi2.consts⟩
   have ht3 : s3.tables = s2.tables := by subst hs3; rfl
   apply Sat.bind
   apply Sat.mono (hb s3 hi3)
   intro _ s4 ⟨hi4, hr4, _⟩
   apply Sat.bind
-  apply Sat.mono (good_finishFn s4 hi4)
-  intro fn s5 ⟨hi5, hr5, _⟩
+  apply Sat.mono (goodP_finishFn s4 hi4)
+  intro fn s5 ⟨hi5, hr5, hfn⟩
   obtain ⟨t5, r5, htr5⟩ : ∃ t r, s5.tables = t :: r := by
     cases h : s5.tables with
     | nil => exact absurd h hi5.ne
@@ -586,7 +603,7 @@ theorem good_withFn (pos : Pos) (variadic : Bool) (params : List String) {body :
     rw [ht3] at h4
     simp at h5
     omega
-  refine ⟨⟨?_, ?_, hi2.walk, hi2.loops⟩, hr2.transfer hin1 hl1 rfl rfl hlen, trivial⟩
+  refine ⟨⟨?_, ?_, hi2.walk, hi2.loops, hi5.consts⟩, hr2.transfer hin1 hl1 rfl rfl hlen, hfn⟩
   · intro h
     simp only at h
     rw [h, htr] at hlen
